@@ -281,7 +281,8 @@ var (
 	// the last four: names differing only in letter case, names that are prefixes of each other, token punctuation
 	protoLists = [][]string{nil, {"a"}, {"a", "b"}, {"b", "a", "c"}, {"Chat", "chat"}, {"chat", "CHAT", "Chat", "b"}, {"chat", "chat.v2", "cha"}, {"v1.json+x", "v1.json", "C"}}
 	protoSels  = []string{"nil", "none", "all", "slice", "exact-last", "exact-second"}
-	extOffers  = [][]string{nil, {"permessage-deflate; client_max_window_bits; server_no_context_takeover"}, {"permessage-deflate", "permessage-deflate; server_max_window_bits=10"}, {"x-unknown; p=1", "permessage-deflate; client_no_context_takeover"}}
+	extOffers  = [][]string{nil, {"permessage-deflate; client_max_window_bits; server_no_context_takeover"}, {"permessage-deflate", "permessage-deflate; server_max_window_bits=10"}, {"x-unknown; p=1", "permessage-deflate; client_no_context_takeover"},
+		{"x-a; p=1", "x-bb; q=22; r", "permessage-deflate", "x-cccc; s=\"t u\"", "x-d"}}
 	extSels    = []string{"nil", "extension-all", "extension-none", "negotiate-accept", "negotiate-decline", "negotiate-error", "negotiate-wsflate"}
 	bufs       = []int{0, 16, 17, 64, 256, 4096}
 )
@@ -297,7 +298,7 @@ func subPairs() mon.Sub {
 		},
 		Do: func(c *mon.C) {
 			i := c.I
-			cfg := pairCfg{Protocols: protoLists[i%8], ProtoSel: protoSels[i/8%6], ExtOffer: extOffers[i/48%4], ExtSel: extSels[i/192%7]}
+			cfg := pairCfg{Protocols: protoLists[i%8], ProtoSel: protoSels[i/8%6], ExtOffer: extOffers[i/48%len(extOffers)], ExtSel: extSels[i/192%7]}
 			cfg.CRBuf, cfg.CWBuf = bufs[c.Rng.Intn(len(bufs))], bufs[c.Rng.Intn(len(bufs))]
 			cfg.SRBuf, cfg.SWBuf = bufs[c.Rng.Intn(len(bufs))], bufs[c.Rng.Intn(len(bufs))]
 			lim := []int{0, 1, 2, 13, -1}
